@@ -15,6 +15,7 @@ import hashlib
 import json
 import multiprocessing
 import os
+import re
 import sys
 import time
 import traceback
@@ -98,6 +99,10 @@ def known_buckets(prop):
 # running an oracle with crash classification
 
 
+_BINDING_ERROR = re.compile(r"got multiple values for argument|got an unexpected keyword argument|missing \d+ required "
+                            r"(positional|keyword-only) argument|takes (from )?\d+ (to \d+ )?positional arguments? but")
+
+
 def _pycoin_frame(tb):
     """innermost traceback frame that lies inside the pycoin package under test"""
     found = None
@@ -120,6 +125,11 @@ def call_oracle(sub, case):
         raise
     except BaseException as ex:  # noqa
         fr = _pycoin_frame(ex.__traceback__)
+        if fr is None and isinstance(ex, TypeError) and _BINDING_ERROR.search(str(ex)):
+            # raised while binding arguments, before any pycoin frame exists: the library function no longer takes the
+            # documented arguments the oracle passes (every oracle call binds on the unchanged tree)
+            raise Violation("api:documented-call-refused:" + _BINDING_ERROR.search(str(ex)).group(0).replace(" ", "-"),
+                            "calling the library with its documented arguments raised TypeError: %s" % str(ex)[:300])
         if fr is None:
             raise HarnessError("oracle %s raised %r on case %s\n%s" % (
                 sub.name, ex, json.dumps(case)[:2000], traceback.format_exc()))
